@@ -217,6 +217,34 @@ def dispatcher_scenario(node, shape, cex):
             nleaf = len([1 for i in range(2) if any(d.name() == f"leaf{i}.0.ok" for d in M.decls())]) or (2 if node in e3.LAZY else 1)
         root = {"k": node, "c": [probe(i) for i in range(nleaf)]}
     sc["probes"] = leaf_plans(C, range(nleaf))
+    # leaves whose node kind the model fixes to Reference are realised as references into the input (their failure is an unknown field)
+    ref_leaves = {}
+    if sc["facts"] == {"t": "None"} and node not in ("Reference", "Index", "Function", "Symbol", "Value"):
+        variants = e3.expr_variants_cached
+        for k in range(nleaf):
+            if any(d.name() == f"leaf{k}.kind" for d in M.decls()) and variants:
+                kind = variants[C.integer(z3.Int(f"leaf{k}.kind"))]
+                if kind == "Reference":
+                    ref_leaves[k] = True
+                elif kind in ("Value", "Symbol"):
+                    raise Unrealisable(f"leaf {k} of kind {kind} cannot be observed natively")
+        if ref_leaves:
+            ent = []
+            for k in ref_leaves:
+                plan = sc["probes"][str(k)]
+                if "ok" in plan["res"]:
+                    ent.append([f"leaf{k}", plan["res"]["ok"]])
+            sc["facts"] = {"t": "Map", "v": sorted(ent)}
+
+            def swap(e):
+                if isinstance(e, dict):
+                    if e.get("k") == "probe" and e.get("id") in ref_leaves:
+                        return {"k": "Reference", "n": f"leaf{e['id']}"}
+                    return {kk: swap(vv) for kk, vv in e.items()}
+                if isinstance(e, list):
+                    return [swap(x) for x in e]
+                return e
+            root = swap(root)
     main = len(rules)
     rules.append({"op": "rule", "name": "main", "expr": root})
     fu = locals().get("followup")
@@ -235,6 +263,13 @@ def dispatcher_scenario(node, shape, cex):
         # strict node: the node on probe children must give what the same node gives on literal children with the same values
         rules.append({"op": "rule", "name": "literal", "expr": {"k": node, "c": [lit(C.value(L.leaf_val(i))) for i in range(nleaf)]}})
     sc["builder"] = builder + rules
+    if ref_leaves:
+        if isinstance(exp, dict) and "err" in exp and exp["err"].get("a") == "probe":
+            for k in ref_leaves:
+                if exp["err"].get("b") == f"leaf{k}":
+                    exp = {"err": {"variant": "UnknownRef", "a": f"leaf{k}"}}
+        elog = [e for e in expected_log(C, case.log) if not (e[0] == "eval" and e[1] in ref_leaves)]
+        return sc, main, exp, pre_log + elog + post_log
     if fu_exp is not None and exp is not None and exp != ("same-as-literal",):
         exp = ("with-followup", exp, fu_exp)
     return sc, main, exp, pre_log + expected_log(C, case.log) + post_log
